@@ -393,7 +393,8 @@ H_PFrame(s, r, l) ==
          [] r.perf = "disposition" -> H_PDisposition(s1, r, l)
          [] OTHER -> R(s1, 0)
 
-H_PHeader(s, r, l) == R([s EXCEPT !.phdr = IF s.phdr = "none" THEN r.kind ELSE "twice"], 0)
+\* (header bytes where a frame is expected are garbage)
+H_PHeader(s, r, l) == R([s EXCEPT !.phdr = IF s.phdr = "none" THEN r.kind ELSE "twice", !.garbage = (@ \/ s.phdr # "none")], 0)
 
 \* ---------------------------------------------------------------- application
 SessName(scope) == scope      \* the scope string of a session call ("s:<name>") identifies the session
@@ -467,6 +468,8 @@ H_ApiRet(s, r, l) ==
          + Chk("C12_CloseResult_Clean", ~(s.pcloseHeard /\ s.pcloseErr = "" /\ ~s.illegal /\ s.ecloses = 1 /\ ~s.ecloseErr /\ ~s.garbage /\ ~s.noise)
                                         \/ r.res.ok \/ (r.res.class = "RemoteClosed" /\ r.res.cond = ""), l, r.res.class)
          + Chk("C13_TeardownWaits", ~(r.op = "close" /\ r.res.ok) \/ s.pcloseHeard \/ s.peof, l, "close")
+         \* a transport that ends without the peer's close is an error, also when the endpoint's own close had already gone out
+         + Chk("C14_ConnHandle", ~(r.res.ok /\ s.peof /\ ~s.pcloseHeard /\ ~s.pclose), l, r.op)
          \* the connection handle reports a transport failure itself
          + Chk("C14_ConnHandle", ~(s.peof /\ ~s.pcloseHeard /\ s.ecloses = 0) \/ ~r.res.ok, l, ""))
   ELSE IF r.op = "begin" THEN
@@ -604,7 +607,8 @@ H_Quiesce(s, r, l) ==
 DeadScope(s, p) == \/ ConnDead(s)
                    \* (a session the application is ending itself has stopped once the peer's end has arrived)
                    \/ (p.sess # "" /\ \E i \in DOMAIN s.ss : s.ss[i].name = p.sess /\ (s.ss[i].pEnded \/ (s.ss[i].eEnded /\ ~s.appTeardown)))
-                   \/ (p.lname # "" /\ \E k \in DOMAIN s.ls : s.ls[k].name = p.lname /\ s.ls[k].eAtt /\ s.ls[k].pDet)
+                   \* (the latest incarnation of the link counts: after a non-closing detach the endpoint may have attached it again)
+                   \/ (p.lname # "" /\ LET k == LastIdx(s.ls, LAMBDA y : y.name = p.lname /\ y.eAtt) IN k > 0 /\ s.ls[k].pDet)
 RECURSIVE PendingFails(_, _, _, _)
 PendingFails(s, ps, i, l) == IF i > Len(ps) THEN 0 ELSE (IF DeadScope(s, ps[i]) THEN Fail("C14_Completes", l, ps[i].op) ELSE 0) + PendingFails(s, ps, i + 1, l)
 PendingClauses(s, r, l) == PendingFails(s, r.pending, 1, l)
@@ -615,7 +619,10 @@ Step(s, r, l) ==
     CASE r.ev = "Init" -> R([InitState EXCEPT !.side = r.side], 0)
       [] r.ev = "EHeader" -> H_EHeader(s, r, l)
       [] r.ev = "EFrame" -> H_EFrame(s, r, l)
-      [] r.ev = "EEof" -> R([s EXCEPT !.eeof = TRUE, !.oblClose = FALSE, !.shutAfterIllegal = (@ \/ (s.illegal /\ s.ecloses = 0))], 0)
+      \* having closed with an error the endpoint discards what still arrives and keeps the transport until the peer's close (or the
+      \* peer's end of stream) has arrived
+      [] r.ev = "EEof" -> R([s EXCEPT !.eeof = TRUE, !.oblClose = FALSE, !.shutAfterIllegal = (@ \/ (s.illegal /\ s.ecloses = 0))],
+                            Chk("C12_WaitsForPeerClose", s.ecloses = 0 \/ ~s.ecloseErr \/ ~s.popen \/ s.pclose \/ s.pcloseHeard \/ s.peof \/ s.garbage \/ s.timedOut \/ s.lidle > 0, l, ""))
       [] r.ev = "EGarbage" -> R(s, Fail("C06_Garbage", l, ""))
       [] r.ev = "PHeader" -> H_PHeader(s, r, l)
       [] r.ev = "PFrame" -> H_PFrame(s, r, l)
